@@ -116,6 +116,21 @@ theorem deterministic (s s' : Store) (user path : Bytes) (now : Int)
     lookup s user path now = lookup s' user path now := by
   exact lookup_congr hb hl hid user path now
 
+/-- Tenant isolation of the routing decision: registering, changing or removing a backend that belongs to some *other*
+    user (neither the requesting user nor the shared `allUsers` owner), at any position of the datastore listing, never
+    changes where this user's request is routed — for every path, time and store. -/
+theorem other_users_backends_irrelevant (s : Store) (pre post : List Backend) (extra : Backend) (user path : Bytes) (now : Int)
+    (hs : s.backends = pre ++ post)
+    (h1 : (extra.EndUser == user) = false) (h2 : (extra.EndUser == store_sharedBackendUser) = false) :
+    lookup { s with backends := pre ++ extra :: post } user path now = lookup s user path now := by
+  have e1 : ofUser { s with backends := pre ++ extra :: post } user = ofUser s user := by
+    simp [ofUser, hs, List.filter_append, h1]
+  have e2 : ofUser { s with backends := pre ++ extra :: post } store_sharedBackendUser = ofUser s store_sharedBackendUser := by
+    simp [ofUser, hs, List.filter_append, h2]
+  unfold lookup lookupShared
+  rw [e1, e2]
+  rfl
+
 /-- what proxyHandler answers with, as a function of the order of its two look-ups -/
 inductive Answer where
   | notFound | fromCache | forward (backend : Bytes)
